@@ -194,6 +194,29 @@ def run_case(case, r):
                 continue
             r.check(b.img.shape == want.shape and np.array_equal(b.img, want), cell, "slice at a coordinate inside voxel layer c, addressed by Cartesian name, is layer c of the partner matrix axis", cut=cut, coordinate=coord, got=b.img, want=want)
             r.check(_meta_equal(a, b), cell, "... with the same metadata as slicing by index", a=_meta(a), b=_meta(b))
+    # ---- the same comparison after the image's origin has been changed in place (the
+    # coordinate system has been used above): addressing by Cartesian name must follow
+    # the current origin
+    import darsia as _d
+
+    new_origin = [7.0, -3.0, 11.0][:dim]
+    img.update_metadata(origin=_d.Coordinate(np.array(new_origin)))
+    cs = img.coordinatesystem
+    for p, m in enumerate(mat):
+        c = conv[m][0]
+        for cut in range(shape[p]):
+            v = np.zeros(dim)
+            v[p] = cut + 0.5
+            ref_coord = new_origin[car.index(c)] + conv[m][1] * (cut + 0.5) * vs[p]
+            coord = float(np.asarray(cs.coordinate(v), dtype=float)[car.index(c)])
+            cell = f"C20/Image.slice/after-origin-change/dim={dim}/axis={c}"
+            r.check(coord == ref_coord, cell, "the coordinate system follows an in-place change of the origin", got=coord, want=ref_coord)
+            try:
+                b = img.slice(ref_coord, c)
+                want = np.take(img.img, cut, axis=p)
+                r.check(b.img.shape == want.shape and np.array_equal(b.img, want), cell, "slicing by Cartesian name after an origin change selects the layer containing the coordinate", cut=cut, coordinate=ref_coord)
+            except Exception as e:  # noqa: BLE001
+                r.fail(cell, "slicing by Cartesian name is usable after an origin change", exception=repr(e), cut=cut)
     r.outcome(("image-axis", shape, case["origin"]))
 
 
